@@ -1,0 +1,6 @@
+//go:build verif
+
+// Contracts for the verifier in /verif (comment-only; compiled only with -tags verif, adds no code).
+package walker
+
+//@ maprange-unordered walker.Walk 1 diagnostics are an unordered collection (C03, C15)
